@@ -11,7 +11,7 @@ CEIL = re.compile(r"(_ceil|::ceil|to_uint_ceil|div_ceil|mul_ceil)$")
 
 
 def fns_with_closures(model, p):
-    return [p] + [x for x in model.fnsrc if x.startswith(p + "::{closure")]
+    return [p] + model.closures_of(p)
 
 
 def pending_fee_subtracted(model, p, ledger_suffix):
